@@ -55,6 +55,7 @@ def bits_float(s: str) -> float:
 
 def check_definition(ctx, drv, d, points, pending, stream):
     from formak import python
+    core.set_tolerance(d.transcend)
     cal_map = None
     for cse in (True, False):
         container = ctx.rng.choice(["set", "list"])
